@@ -18,7 +18,6 @@ void h_stepTo(void)              { struct IntegratorRep* s; Real r, e; AbstractI
 void h_stepTo_refusal(void)      { struct IntegratorRep* s; Real r, e; stepTo_refusal_after_reinit(s, r, e); }
 void h_stepTo_window(void)       { struct IntegratorRep* s; Real r, e; stepTo_report_in_window(s, r, e); }
 void h_reinitialize(void)        { struct IntegratorRep* s; int stage; bool term; IntegratorRep_reinitialize(s, stage, term); }
-void h_stepBy(void)              { struct IntegratorRep* s; Real a, b; Integrator_stepBy(s, a, b); }
 
 /* reachability covers behind the preconditions: one per status value and per interesting corner, so that a contradictory
    class invariant / precondition cannot make the proof vacuous */
@@ -37,3 +36,24 @@ void h_cover_stepTo(void) {
     __CPROVER_cover(r > FINALT(s) && s->userAllowInterpolation == 0);
     __CPROVER_cover(s->userReturnEveryInternalStep == 1 && s->userInternalStepLimit > 0);
 }
+
+#ifdef STEPBY_PLAIN
+/* Integrator::stepBy, loop-free full-domain harness (complete proof). The double additions `t + x` of the real text are
+   rewritten by the extractor to VF_ADD(t,x) = an UNINTERPRETED function (CBMC __CPROVER_uninterpreted_*): proving that two
+   separately built symbolic 64-bit adders agree is out of reach of the SAT/SMT back ends here, and the forwarding claim holds
+   for every binary operation, in particular for IEEE +. rep_stepTo's body below IS its contract (records the
+   forwarded request). */
+SuccessfulStepStatus rep_stepTo(struct IntegratorRep* self, Real reportTime, Real scheduledEventTime)
+{ ghost_stepTo_report = reportTime; ghost_stepTo_sched = scheduledEventTime; ghost_stepTo_calls = ghost_stepTo_calls + 1; SuccessfulStepStatus nd; return nd; }
+static void stepBy_case(bool interpolated) {
+    struct IntegratorRep S; Real interval, limit;
+    S.useInterpolatedState = interpolated;
+    const Real t = interpolated ? S.interpolatedState.t : S.advancedState.t;      /* == getState().getTime() */
+    ghost_stepTo_calls = 0;
+    Integrator_stepBy(&S, interval, limit);
+    __CPROVER_assert(ghost_stepTo_calls == 1, "stepBy forwards exactly one stepTo request");
+    __CPROVER_assert(__CPROVER_isnand(ghost_stepTo_report) || ghost_stepTo_report == VF_ADD(t, interval), "stepBy: report time is relative to the CURRENT returned time getState().getTime()");
+    __CPROVER_assert(__CPROVER_isnand(ghost_stepTo_sched) || ghost_stepTo_sched == VF_ADD(t, limit), "stepBy: advance limit is relative to the CURRENT returned time");
+}
+void h_stepBy_plain(void) { stepBy_case(false); stepBy_case(true); }
+#endif
